@@ -129,7 +129,8 @@ def tasks(tier, seed):
     for name in names:
         t.append(("fixture", {"name": name, "mutate_seed": derive_seed(seed, "c18mut", name), "nmut": 300 if tier == "quick" else 3000}))
     if HAVE_LABELS:
-        t.append(("labels", {"seed": derive_seed(seed, "c18lab"), "n": 12 if tier == "quick" else 150}))
+        for k in range(2 if tier == "quick" else 16):
+            t.append(("labels", {"seed": derive_seed(seed, "c18lab", k), "n": 6 if tier == "quick" else 20}))
     return t
 
 
